@@ -18,8 +18,9 @@ pub struct Case {
     pub opener: Opener,
 }
 
-fn all_zero(b: &[u8]) -> bool {
-    b.iter().all(|x| *x == 0)
+/// every byte is either what the caller passed in or zero (an implementation may clear the plaintext area only)
+fn unchanged_or_zero(before: &[u8], after: &[u8]) -> bool {
+    before.len() == after.len() && before.iter().zip(after.iter()).all(|(b, a)| a == b || *a == 0)
 }
 
 /// Evaluate one (material, fault, opener). Ok(true) = evaluated, Ok(false) = not applicable.
@@ -65,7 +66,7 @@ pub fn check_one(mode: Mode, authentic: &Material, fault: &Fault, op: Opener) ->
                 return Ok(true); // acceptance of tampered input is C02's violation, not C17's
             }
             if let (Some(before), Some(after)) = (&o.buf_before, &o.buf_after) {
-                if after != before && !all_zero(after) {
+                if !unchanged_or_zero(before, after) {
                     let forged = forged_plaintext(&m);
                     let leak = forged.as_ref().map_or(false, |f| {
                         !f.is_empty() && after.windows(f.len().min(8)).any(|w| f.windows(f.len().min(8)).any(|x| x == w))
@@ -155,6 +156,20 @@ pub fn run_mode(ctx: &mut Ctx, mode: Mode) -> Result<(), Violation> {
                         }
                     }
                 }
+                if mode == Mode::C17 {
+                    // a caller whose message buffer has the size of the plaintext it expects, given a TRUNCATED ciphertext
+                    if let Fault::Truncate(k) = fault {
+                        if *k <= auth.ct.len() && kind != Kind::Stream {
+                            if let Some((before, after, ok)) = open_fixed_buffer_observe(op, &apply(&auth, fault), auth.msg.len()) {
+                                ev.eval(1);
+                                if !ok && !unchanged_or_zero(&before, &after) {
+                                    let c = Case { material: auth.clone(), fault: fault.clone(), opener: op };
+                                    return Err(Violation::new(pid, "aead-fault-fixed-buffer-leak", format!("{}: open of a truncated ciphertext ({fault:?}) into a buffer sized for the expected plaintext failed but left data in it: before {} after {}", op.name(), hx(&before[..before.len().min(40)]), hx(&after[..after.len().min(40)])), serde_json::to_value(&c).unwrap()));
+                                }
+                            }
+                        }
+                    }
+                }
                 if mode == Mode::C17 && *fault != Fault::None {
                     let fm = apply(&auth, fault);
                     if let Some(Ok(o)) = open_caught(op, &fm) {
@@ -231,6 +246,14 @@ pub fn replay_mode(v: &Violation, mode: Mode) -> Result<(), String> {
         "aead-fault-fixed-buffer" => {
             if open_fixed_buffer_accepts(c.opener, &apply(&c.material, &c.fault), c.material.msg.len()) == Some(true) {
                 return Err("extended ciphertext accepted with a fixed-size caller buffer".into());
+            }
+            return Ok(());
+        }
+        "aead-fault-fixed-buffer-leak" => {
+            if let Some((before, after, ok)) = open_fixed_buffer_observe(c.opener, &apply(&c.material, &c.fault), c.material.msg.len()) {
+                if !ok && !unchanged_or_zero(&before, &after) {
+                    return Err("failed open into a fixed-size buffer left data behind".into());
+                }
             }
             return Ok(());
         }
